@@ -64,6 +64,11 @@ let expected (inp : string list) (out : string) : string =
     Buffer.add_string b ("D1{" ^ d1s ^ "} CTX{" ^ ctx ^ "}");
     for _ = 1 to int_of_string runs do Buffer.add_string b (" " ^ run) done;
     Buffer.contents b
+  | [ "outer"; _; _; _; runs ] ->
+    (* whole-block accumulation run repeatedly from the same prior state: the property is that every run
+       equals every other, so the expectation repeats the first run *)
+    let first, _ = section "RUN" out in
+    String.concat " " (List.init (int_of_string runs) (fun _ -> "RUN{" ^ first ^ "}"))
   | _ -> "BADCASE"
 let () =
   let total = ref 0 and bad = ref 0 in
